@@ -2,8 +2,10 @@
 # compiled unmodified with the defines of an offline cmake configure, then symbol-retargeted with objcopy.
 PLIBSYS_SRC ?= /repo
 BUILD ?= build
+# always absolute: the generated dependency files name their targets by the path given here
+override BUILD := $(abspath $(BUILD))
 export PLIBSYS_SRC
-export VERIF_BUILD := $(abspath $(BUILD))
+export VERIF_BUILD := $(BUILD)
 
 CC := gcc
 CXX := g++
